@@ -24,7 +24,7 @@ from qiskit.circuit.library import UnitaryGate
 from qiskit.circuit import Gate, Qubit
 from qclib.gates.ldmcsu import Ldmcsu
 from qclib.gates.mcx import McxVchainDirty
-from qclib.gates.util import check_su2, isclose
+from qclib.gates.util import check_u2, check_su2, isclose
 
 
 # pylint: disable=protected-access
@@ -51,8 +51,10 @@ class MultiTargetMCSU2(Gate):
 
         if isinstance(unitaries, list):
             for unitary in unitaries:
+                check_u2(np.asarray(unitary))
                 check_su2(unitary)
         else:
+            check_u2(np.asarray(unitaries))
             check_su2(unitaries)
 
         self.unitaries = unitaries
